@@ -31,9 +31,13 @@ class JobResult:
 
 
 def cbmc_cmd(job, trace=False, props=()):
-    sat = job.mode in ('BV', 'BVN')
+    sat = job.mode in ('BV', 'BVN', 'BVU')
     cmd = ['cbmc', job.path, '--function', 'harness', '-I', STUBS, '--no-standard-checks']
-    if sat:
+    if job.mode == 'BVU':
+        # undefined behaviour only (C20): no wrap-around / narrowing checks, which are defined behaviour
+        cmd += ['--bounds-check', '--pointer-check', '--div-by-zero-check', '--signed-overflow-check', '--pointer-overflow-check',
+                '--float-overflow-check' if False else '--undefined-shift-check']
+    elif sat:
         cmd += ['--bounds-check', '--pointer-check', '--div-by-zero-check', '--signed-overflow-check',
                 '--unsigned-overflow-check', '--conversion-check', '--pointer-overflow-check']
     else:
